@@ -23,6 +23,7 @@ type oracles struct {
 	firstHash map[uint64]string // C04: first hash seen committed per height
 	prev      snap
 	havePrev  bool
+	prevSnap  snap // the most recent snapshot (after the last event)
 
 	commitsSeen int
 	storeSeen   map[uint64]string // header store entries already certified (hash|proof digest)
@@ -455,6 +456,7 @@ func (o *oracles) checkValSets(sn snap) {
 
 func (o *oracles) afterStep(before, after snap, a applied) {
 	s := o.s
+	o.prevSnap = after
 	// C09: defined results, nothing blocked, node answers.
 	if o.on["C09"] {
 		if a.result == "BLOCKED" {
@@ -468,7 +470,7 @@ func (o *oracles) afterStep(before, after snap, a applied) {
 		}
 		if strings.HasPrefix(a.result, "restart-failed") {
 			// reported by C10
-		} else if s.m != nil && !after.ok {
+		} else if s.alive() && !after.ok {
 			o.violate("C09", "node-stopped-serving:"+evClass(a.ev), "VotingView/CommittingView did not answer after this event")
 		}
 	}
